@@ -1,3 +1,4 @@
+import Dagrt.Proofs.CallStmtProofs
 import Dagrt.Proofs.RtProofs
 import Dagrt.Proofs.KindLoopProofs
 /-!
@@ -202,5 +203,187 @@ example :
       some (some (.scalar true), some (.scalar false)) := by decide +kernel
 example : infer true (mkRegistry []) Table.init "p" (.prod [.var "<t>", .const (.cplx "1j")]) = .ok (.scalar false) := by decide
 example : rtEval (fun _ _ _ => []) (fun _ => .real) (.prod [.var "<t>", .const (.cplx "1j")]) = .cplx := by decide
+
+/-! ### call statements (`AssignFunctionCall` with one or several results) -/
+
+/-- **Invariant under a call statement.** If the table is a post-fix-point for
+    `assignees <- f(args, kw)` (the declared result kinds are below the table's kinds of the
+    assignees) and there are as many assignees as results (what the final consistency pass of the
+    inference checks), executing it keeps the table a description of the store. -/
+theorem call_preserves (reg : Registry) (t : Table) (ph : Name) (F : RtFuns) (ρ : Name → Rt)
+    (hT : TableCompat t ph ρ) (hR : RegSound reg F) (lhs : List Name) (f : Name) (args : List Expr)
+    (kw : List (Name × Expr)) (ks : List Kind)
+    (hga : goodA false reg t ph F ρ args = true) (hgk : goodK false reg t ph F ρ kw = true)
+    (h : inferCall false reg t ph f args kw = .ok ks) (hlen : ks.length = lhs.length)
+    (hpost : ∀ p ∈ zipNK lhs ks, ∀ k', lookupVar t ph p.1 = some k' → p.2 = k' ∨ unifyK p.2 k' = .ok k') :
+    TableCompat t ph (execCallRt F ρ lhs f args kw) := by
+  unfold inferCall at h
+  cases hf : reg f with
+  | none => simp [hf] at h
+  | some fn =>
+    simp only [hf, bind, Except.bind] at h
+    cases ha : inferArgs false reg t ph args with
+    | error e => simp [ha] at h
+    | ok ak =>
+      cases hk : inferKw false reg t ph kw with
+      | error e => simp [ha, hk] at h
+      | ok kk =>
+        simp only [ha, hk] at h
+        cases hfn : fn false ak kk with
+        | error e => simp [hfn] at h
+        | ok ks0 =>
+          simp only [hfn, Except.ok.injEq] at h
+          subst h
+          have hA := inferArgs_sound false reg t ph F ρ hT hR args ak hga ha
+          have hK := inferKw_sound false reg t ph F ρ hT hR kw kk hgk hk
+          have hO : OutCompat (F f (rtEvalL F ρ args) (rtEvalK F ρ kw)) ks0 :=
+            hR f fn false _ ak _ kk ks0 hf hA hK hfn
+          have hl := outCompat_length _ _ hO
+          unfold execCallRt
+          match lhs, hlen, hpost with
+          | [], _, _ => exact hT
+          | [x], hlen, hpost =>
+            -- one assignee, hence one result kind, hence one result
+            match ks0, hlen, hO, hl, hpost with
+            | [k], _, hO, hl, hpost =>
+              generalize F f (rtEvalL F ρ args) (rtEvalK F ρ kw) = rs at hO hl ⊢
+              match rs, hO, hl with
+              | [r], hO, _ =>
+                simp only [OutCompat] at hO
+                intro y ky hy
+                by_cases hyx : y = x
+                · subst hyx; simp only [if_true]
+                  exact table_kind_accepts r k ky hO.1 (hpost (y, k) (by simp [zipNK]) ky hy)
+                · simp only [hyx, if_false]; exact hT y ky hy
+          | x :: y :: rest, hlen, hpost =>
+            have : (F f (rtEvalL F ρ args) (rtEvalK F ρ kw)).length = (x :: y :: rest).length := by
+              rw [hl, hlen]
+            simp only [this, if_true]
+            exact assignZip_compat t ph _ _ ρ hT (zip_values_compat t ph _ _ ks0 hO hpost)
+
+
+/-- a registered function has a fixed number of results (`len(func.result_names)` is an attribute of
+    the function, not of a call) -/
+def FixedArity (reg : Registry) : Prop :=
+  ∀ f fn, reg f = some fn → ∀ c1 c2 a1 a2 k1 k2 r1 r2,
+    fn c1 a1 k1 = .ok r1 → fn c2 a2 k2 = .ok r2 → r1.length = r2.length
+
+
+/-- no unification was printed-and-ignored for an assignee of this call statement -/
+def NoIgnoredCallConflict (reg : Registry) (t : Table) (ph : Name) (lhs : List Name) (f : Name)
+    (args : List Expr) (kw : List (Name × Expr)) : Prop :=
+  ∀ ks, inferCall false reg t ph f args kw = .ok ks →
+    ∀ p ∈ zipNK lhs ks, ∀ old e, t.get ph p.1 = some old → unifyK p.2 old ≠ .error e
+
+/-- **One executed call statement of the program** keeps the returned table a description of the
+    store: every assignee receives a value of its inferred kind - in particular never the whole tuple
+    of a multi-result function, because the final consistency pass of a successful inference has
+    checked that there are as many assignees as results. -/
+theorem inferred_table_sound_call_step (reg : Registry) (prog : List (Name × KStmt)) (t : Table)
+    (h : inferAll reg prog = .ok t) (hph : ∀ p ∈ prog, p.1 ≠ "") (hfa : FixedArity reg)
+    (ph : Name) (lhs : List Name) (f : Name) (args : List Expr) (kw : List (Name × Expr))
+    (hm : (ph, KStmt.callAssign lhs f args kw) ∈ prog)
+    (F : RtFuns) (ρ : Name → Rt) (hT : TableCompat t ph ρ) (hR : RegSound reg F)
+    (hga : goodA false reg t ph F ρ args = true) (hgk : goodK false reg t ph F ρ kw = true)
+    (hnc : NoIgnoredCallConflict reg t ph lhs f args kw) :
+    TableCompat t ph (execCallRt F ρ lhs f args kw) := by
+  obtain ⟨ks, hks, habs⟩ := inferAll_postfix reg prog t h _ hm
+  have hw := inferAll_wellScoped reg prog hph t h
+  have hphne : ph ≠ "" := hph _ hm
+  -- the final pass ran and accepted the statement
+  have hfc : finalCheck reg t prog = .ok () := by
+    unfold inferAll at h
+    cases ho : outer reg prog (4 * countNames prog + 4) Table.init with
+    | error e => simp [ho, bind, Except.bind] at h
+    | ok t0 =>
+      simp only [ho, bind, Except.bind] at h
+      cases hf : finalCheck reg t0 prog with
+      | error e => simp [hf] at h
+      | ok u =>
+        simp only [hf, Except.ok.injEq] at h
+        subst h
+        exact hf
+  obtain ⟨ks', hks', hlen'⟩ := finalCheck_count reg t prog hfc ph lhs f args kw hm
+  obtain ⟨fn, ak, kk, hf, hfn⟩ := inferCall_fn hks
+  obtain ⟨fn', ak', kk', hf', hfn'⟩ := inferCall_fn hks'
+  have hfe : fn' = fn := by rw [hf] at hf'; exact (Option.some.inj hf').symm
+  subst hfe
+  have hlen : ks.length = lhs.length := (hfa f fn' hf _ _ _ _ _ _ _ _ hfn hfn').trans hlen'
+  apply call_preserves reg t ph F ρ hT hR lhs f args kw ks hga hgk hks hlen
+  intro p hp k' hk'
+  rw [lookupVar_eq_get t ph p.1 hphne hw] at hk'
+  obtain ⟨old, hold, h1 | h2 | ⟨e, he⟩⟩ := habs p hp
+  · rw [hold] at hk'; cases hk'; exact Or.inl h1.symm
+  · rw [hold] at hk'; cases hk'; exact Or.inr h2
+  · exact absurd he (hnc ks hks p hp old e hold)
+
+
+/-- an executed statement: an assignment `(lhs, flattened rhs)` or a call statement -/
+inductive Step where
+  | assign (lhs : Name) (e : Expr)
+  | call (lhs : List Name) (f : Name) (args : List Expr) (kw : List (Name × Expr))
+
+def Step.exec (F : RtFuns) (ρ : Name → Rt) : Step → (Name → Rt)
+  | .assign lhs e => fun x => if x = lhs then rtEval F ρ e else ρ x
+  | .call lhs f args kw => execCallRt F ρ lhs f args kw
+
+/-- the step is a statement of phase `ph` of the program -/
+def Step.inProg (prog : List (Name × KStmt)) (ph : Name) : Step → Prop
+  | .assign lhs e => ∃ rhs loops, (ph, KStmt.assign lhs false rhs e loops) ∈ prog
+  | .call lhs f args kw => (ph, KStmt.callAssign lhs f args kw) ∈ prog
+
+/-- nothing raises while the step's expressions are evaluated -/
+def Step.good (reg : Registry) (t : Table) (ph : Name) (F : RtFuns) (ρ : Name → Rt) : Step → Prop
+  | .assign _ e => Dagrt.Kinds.good false reg t ph F ρ e = true
+  | .call _ _ args kw => goodA false reg t ph F ρ args = true ∧ goodK false reg t ph F ρ kw = true
+
+def Step.noIgnored (reg : Registry) (t : Table) (ph : Name) : Step → Prop
+  | .assign lhs e => NoIgnoredConflict reg t ph lhs e
+  | .call lhs f args kw => NoIgnoredCallConflict reg t ph lhs f args kw
+
+def execSteps (F : RtFuns) : List Step → (Name → Rt) → (Name → Rt)
+  | [], ρ => ρ
+  | s :: r, ρ => execSteps F r (s.exec F ρ)
+
+def goodSteps (reg : Registry) (t : Table) (ph : Name) (F : RtFuns) : List Step → (Name → Rt) → Prop
+  | [], _ => True
+  | s :: r, ρ => s.good reg t ph F ρ ∧ goodSteps reg t ph F r (s.exec F ρ)
+
+/-- **Every execution, call statements included**: any sequence of assignments and call statements
+    of a phase of the program, of any length, in any order, with any repetitions, started in a state
+    the table describes, ends in a state the table describes. -/
+theorem inferred_table_sound_run_stmts (reg : Registry) (prog : List (Name × KStmt)) (t : Table)
+    (h : inferAll reg prog = .ok t) (hph : ∀ p ∈ prog, p.1 ≠ "") (hfa : FixedArity reg) (ph : Name)
+    (F : RtFuns) (hR : RegSound reg F) :
+    ∀ (trace : List Step) (ρ : Name → Rt),
+      (∀ s ∈ trace, s.inProg prog ph) → (∀ s ∈ trace, s.noIgnored reg t ph) →
+      goodSteps reg t ph F trace ρ → TableCompat t ph ρ → TableCompat t ph (execSteps F trace ρ)
+  | [], ρ, _, _, _, hT => hT
+  | s :: r, ρ, hm, hnc, hg, hT => by
+    have h1 : TableCompat t ph (s.exec F ρ) := by
+      have hin := hm s List.mem_cons_self
+      have hno := hnc s List.mem_cons_self
+      cases s with
+      | assign lhs e =>
+        obtain ⟨rhs, loops, hmem⟩ := hin
+        exact inferred_table_sound_step reg prog t h hph ph lhs rhs e loops hmem F ρ hT hR hg.1 hno
+      | call lhs f args kw =>
+        exact inferred_table_sound_call_step reg prog t h hph hfa ph lhs f args kw hin F ρ hT hR hg.1.1 hg.1.2 hno
+    exact inferred_table_sound_run_stmts reg prog t h hph hfa ph F hR r _
+      (fun a ha => hm a (List.mem_cons_of_mem _ ha)) (fun a ha => hnc a (List.mem_cons_of_mem _ ha)) hg.2 h1
+
+/-- non-vacuity, and the shape the count check is there for: with as many assignees as results the
+    two-result call is accepted and the assignees get the results' kinds; with ONE assignee inference
+    fails (the interpreter would store the whole tuple, a value without a kind) -/
+example :
+    let reg := mkRegistry [("<func>two", [.scalar true, .array false])]
+    let ok := [("p", KStmt.callAssign ["s", "w"] "<func>two" [.var "<t>"] [])]
+    let short := [("p", KStmt.callAssign ["s"] "<func>two" [.var "<t>"] [])]
+    (inferAll reg ok).toOption.map (fun t => (t.get "p" "s", t.get "p" "w")) =
+        some (some (.scalar true), some (.array false)) ∧
+    (inferAll reg short).toOption.isNone = true ∧
+    execCallRt (fun _ _ _ => [.real, .arr true]) (fun _ => .real) ["s"] "<func>two" [.var "<t>"] [] "s" = .none := by
+  decide +kernel
+
 
 end Dagrt.C09
